@@ -113,8 +113,15 @@ fn exh2<K: VKind>(pal5: Vec<K::V>, order: Vec<u32>, rep: &mut Report) {
     for o in 0..6usize {
         for a in 0..625usize {
             progress(&json!({"sig": format!("C10/{}/{}/crash", K::NAME, MT_BINS[o]), "ctx": ctx, "a": format!("{:?}", tables[a].vals)}).to_string());
+            // results are dropped at once: collect them - a full node or terminal store is not
+            // what this suite tests (whether the collector thread gets to run in time depends on
+            // the machine)
+            K::gc(&mr);
             for b in 0..625usize {
-                let r = match K::bin(o, &fns[a], &fns[b]) {
+                let r = match K::bin(o, &fns[a], &fns[b]).or_else(|_| {
+                    K::gc(&mr);
+                    K::bin(o, &fns[a], &fns[b])
+                }) {
                     Ok(r) => r,
                     Err(e) => {
                         rep.viol(format!("C10/{}/{}", K::NAME, MT_BINS[o]), e, json!({"ctx": ctx}));
@@ -153,8 +160,12 @@ fn exh2<K: VKind>(pal5: Vec<K::V>, order: Vec<u32>, rep: &mut Report) {
     for &c in &conds {
         progress(&json!({"sig": format!("C10/{}/ite/crash", K::NAME), "ctx": ctx}).to_string());
         for a in (0..625).step_by(3) {
+            K::gc(&mr);
             for b in (0..625).step_by(7) {
-                let r = K::ite(&fns[c], &fns[a], &fns[b]);
+                let r = K::ite(&fns[c], &fns[a], &fns[b]).or_else(|_| {
+                    K::gc(&mr);
+                    K::ite(&fns[c], &fns[a], &fns[b])
+                });
                 let exp = tables[c].map3(&tables[a], &tables[b], K::ite_model);
                 n_ite += 1;
                 rep.evaluations += 1;
@@ -181,8 +192,12 @@ fn exh2<K: VKind>(pal5: Vec<K::V>, order: Vec<u32>, rep: &mut Report) {
                 _ => cube,
             };
         }
+        K::gc(&mr);
         for a in 0..625usize {
-            let r = K::restrict(&fns[a], &cube).unwrap();
+            let r = K::restrict(&fns[a], &cube).unwrap().or_else(|_| {
+                K::gc(&mr);
+                K::restrict(&fns[a], &cube).unwrap()
+            });
             let mut exp = tables[a].clone();
             for v in 0..2u32 {
                 exp = match lits[v as usize] {
